@@ -82,7 +82,7 @@ Section VlogP.
   Lemma put1_ok st e st1 p : vwf st -> wfe e -> put1 st e = (st1, p) ->
     vwf st1 /\ ext st st1 /\ read_value st1 p = Some (e_value e) /\ vl_max st1 = vl_max st /\ vl_n st1 = vl_n st.
   Proof.
-    intros [(d & Hd & Hl) Hhi] We H. unfold VlogWrite.put1 in H.
+    intros [(d & Hd & Hl) Hhi] We H. unfold VlogWrite.put1, put1_with in H.
     assert (Len: (0 < length (enc_of encrypted xs iv_of st e))%nat).
     { unfold enc_of, encode_entry. rewrite !app_length, be_enc_length. lia. }
     assert (Dec: decode_entry encrypted xs (iv_of (vl_max st)) (enc_of encrypted xs iv_of st e) (vl_woff st) = Some (strip_txn e)).
